@@ -388,6 +388,37 @@ def r4(cx):
             else:
                 cx.violation(k, "or-built-from-two-conversions", "%s: a ColumnPredicate::Or is assembled from operands that are not both conversion results in this function (the "
                              "'operand missing' case is decided elsewhere, out of this rule's sight)" % bb.sp(bi, si), [bb.sp(bi, si)])
+    # polarity: dropping an unconvertible AND operand only weakens the predicate (sound) as long as the result is never complemented; `NOT e` is carried as the opaque
+    # ColumnPredicate::Not (always may-match, R2).  The two are unsound together: NOT(a AND <unconvertible>) -> NOT a -> complement(a) prunes chunks whose rows fail only
+    # the dropped operand.  Violation only when both hold: (1) a predicate is returned for `a AND b` without both operands converted, (2) the converter no longer wraps the
+    # converted inner expression of NOT directly into ColumnPredicate::Not
+    and_edges = []
+    for bi, blk in enumerate(b.blocks):
+        t = blk["term"]
+        if t["k"] == "switch" and (t.get("enum") or "").endswith("Operator") and not blk.get("cleanup"):
+            for nme, tg in zip(t["variants"], t["targets"]):
+                if nme == "And":
+                    and_edges.append((bi, tg))
+    weak = None
+    for (sb, tg) in and_edges:
+        region = b.reachable(tg) | {tg}
+        calls = [r for r in rec if r in region]
+        for side in (".left", ".right"):
+            cs = [r for r in calls if any(side in x[2] for x in M.operand_origins(b, b.term(r)["args"][0], at=(r, M.T)) if x[0] in ("arg", "call", "upvar"))]
+            se = set()
+            for r in cs:
+                se |= M.outcome_edges(b, r)[0]
+            for e in exits:
+                if e[0] in region and (not se or e[0] in (b.reachable(tg, removed_edges=se) | {tg})):
+                    weak = weak or (sb, e, side)
+    nots = M.aggregates(b, lambda rv: rv.get("ak") == "adt" and rv.get("adt", "").endswith("predicates::ColumnPredicate") and rv.get("variant") == "Not")
+    opaque = bool(nots) and all(any(x[0] == "call" and x[1][1] == CONV for o in st["rv"]["ops"] for x in M.operand_origins(b, o, at=(bi, si))) for (bi, si, st) in nots)
+    if weak and not opaque:
+        cx.violation(CONV, "no-complement-of-a-weakened-conjunction", "%s: for `a AND b` a predicate is returned without the %s operand being converted (a weaker predicate), and `NOT e` is no "
+                     "longer carried as the opaque ColumnPredicate::Not of the converted e: NOT(a AND <unconvertible>) becomes the complement of a, which prunes chunks whose rows fail "
+                     "only the dropped operand" % (b.sp(weak[1][0], weak[1][1]), weak[2][1:]), [b.sp(weak[0]), b.sp(weak[1][0], weak[1][1])])
+    elif and_edges:
+        cx.passed(CONV, "no-complement-of-a-weakened-conjunction", [b.sp(and_edges[0][0])], "AND needs both operands: %s; NOT stays opaque: %s" % (not weak, opaque))
     # negated BETWEEN
     neg_false = set()
     for sw in M.bool_switches(b):
